@@ -28,8 +28,14 @@ CMP_STEPS = (1, 10, 20)
 TOL_DIRECT = 1e-12      # compiled parameters that are copies / frame compositions / unit conversions of the XML numbers
 TOL_DERIVED = 1e-9      # quantities obtained through solves with the inertia matrix (invweight0, acc0, M0, stat)
 TOL_F32 = 1e-6          # float32 fields
+TOL_EIG = 1e-5          # inertia tensors, max|dI| / max|I|: the compiler diagonalises with a Jacobi iteration that stops
+                        # when the remaining rotation has cos > 1 - 1e-12 (user_util.cc kEigEPS), i.e. principal axes are
+                        # only accurate to ~1.5e-6 rad, hence |dI| <~ 3e-6 |I|; worst observed 1.6e-7
+TOL_DERIVED_FUSE = 1e-5 # derived quantities when fusestatic re-diagonalises aggregated inertias (inherits TOL_EIG)
 TRAJ_ATOL = 1e-9        # trajectory: absolute floor ...
 TRAJ_K = 1.0            # ... plus K x (response of the plain model to a 1e-12 perturbation of its state)
+TRAJ_ATOL_FUSE = 1e-7   # fusestatic: the fused inertia is re-diagonalised (relative error up to ~3e-6, see TOL_EIG), i.e. a
+TRAJ_K_FUSE = 3e6       # parameter perturbation ~3e6 times larger than the 1e-12 probe; worst observed ratio diff/resp ~600
 ILLCOND = 1e-6          # response above this: labelled illconditioned, trajectory comparison skipped
 
 OBJTYPES = ('body', 'joint', 'geom', 'site', 'camera', 'tendon', 'actuator', 'sensor')
@@ -53,11 +59,11 @@ DERIVED = {'body_invweight0', 'body_subtreemass', 'tendon_invweight0', 'tendon_l
            'actuator_acc0', 'actuator_length0', 'actuator_lengthrange', 'cam_pos0', 'cam_poscom0', 'cam_mat0',
            'dof_invweight0', 'dof_M0', 'dof_length', 'body_margin', 'geom_aabb', 'geom_rbound'}
 # fields that legitimately change when static bodies are fused / visual geoms are discarded
-FUSE_SKIP = {'body_parentid', 'body_weldid', 'body_rootid', 'body_pos', 'body_quat', 'body_geomnum', 'body_sameframe',
+FUSE_SKIP = {'body_mass', 'body_parentid', 'body_weldid', 'body_rootid', 'body_pos', 'body_quat', 'body_geomnum', 'body_sameframe',
              'body_simple', 'body_subtreemass', 'body_bvhnum', 'body_contype', 'body_conaffinity', 'body_margin',
-             'geom_bodyid', 'geom_pos', 'geom_quat', 'geom_sameframe', 'site_bodyid', 'site_pos', 'site_quat',
-             'site_sameframe', 'cam_bodyid', 'cam_pos', 'cam_quat', 'cam_pos0', 'cam_poscom0', 'dof_length',
-             'body_invweight0'}
+             'geom_sameframe', 'site_sameframe', 'dof_length', 'body_invweight0'}
+# ... and, only for geoms/sites that lived in a body that was fused away (they are re-expressed in the parent frame):
+FUSE_MOVED_SKIP = {'geom_bodyid', 'geom_pos', 'geom_quat', 'site_bodyid', 'site_pos', 'site_quat'}
 DISCARD_SKIP = {'body_geomnum', 'body_bvhnum', 'body_sameframe', 'body_contype', 'body_conaffinity', 'body_margin',
                 'geom_sameframe', 'site_sameframe', 'dof_length', 'body_simple'}
 NSIZE = {2: 1, 3: 2, 4: 3, 5: 2, 6: 3}      # mjtGeom sphere, capsule, ellipsoid, cylinder, box -> relevant size entries
@@ -166,6 +172,51 @@ def inertia_body(m, i):
   return R @ np.diag(m.body_inertia[i]) @ R.T
 
 
+def compare_fields(lib, mA, mB, IA, IB, t, names, skip, what, tol_derived=TOL_DERIVED):
+  """All model arrays of one object type, for the name-matched objects `names`."""
+  nA, nB = getattr(mA, COUNT[t]), getattr(mB, COUNT[t])
+  ia = np.array([IA.ids[t][x] for x in names], dtype=int)
+  ib = np.array([IB.ids[t][x] for x in names], dtype=int)
+  if not len(ia):
+    return
+  for f in lib.model_fields:
+    if not f.startswith(PREFIX[t]) or f in skip:
+      continue
+    xa, xb = getattr(mA, f), getattr(mB, f)
+    if xa.shape[0] != nA or xb.shape[0] != nB or xa.shape[1:] != xb.shape[1:]:
+      if xa.shape[0] != nA:
+        continue
+      fail('%s: field %s shapes %s vs %s' % (what, f, xa.shape, xb.shape), 'shape')
+    va, vb = xa[ia], xb[ib]
+    if f in IDMAP:
+      na = [IA.name(IDMAP[f], v) for v in va]
+      nb = [IB.name(IDMAP[f], v) for v in vb]
+      if na != nb:
+        k = [i for i in range(len(na)) if na[i] != nb[i]][0]
+        fail('%s: %s of %s %r: %r vs %r' % (what, f, t, names[k], na[k], nb[k]), 'field:' + f)
+    elif va.dtype.kind == 'f':
+      if f in QUATS:
+        e, cls, tol = quaterr(va, vb), 'direct', TOL_DIRECT
+      elif va.dtype == np.float32:
+        e, cls, tol = relerr(va, vb), 'f32', TOL_F32
+      elif f in DERIVED:
+        e, cls, tol = relerr(va, vb), 'derived', tol_derived
+      else:
+        e, cls, tol = relerr(va, vb), 'direct', TOL_DIRECT
+      STATS.note(cls + ('-fuse' if tol_derived != TOL_DERIVED and cls == 'derived' else ''), f, e)
+      if e > tol:
+        d = np.abs(va.astype(np.float64) - vb).reshape(len(ia), -1).max(axis=1) if f not in QUATS else \
+            np.minimum(np.abs(va - vb).max(axis=1), np.abs(va + vb).max(axis=1))
+        k = int(np.argmax(d))
+        fail('%s: %s of %s %r differs: %s vs %s (err %.3g > %.1g)' % (what, f, t, names[k], va[k].tolist(),
+                                                                        vb[k].tolist(), e, tol), 'field:' + f)
+    else:
+      if not np.array_equal(va, vb):
+        d = (va != vb).reshape(len(ia), -1).any(axis=1)
+        k = int(np.flatnonzero(d)[0])
+        fail('%s: %s of %s %r: %s vs %s' % (what, f, t, names[k], va[k].tolist(), vb[k].tolist()), 'field:' + f)
+
+
 def compare_models(lib, mA, mB, kinds, what):
   """Name-matched comparison of two compiled models.  Returns (IA, IB, common names per type)."""
   fuse, disc = 'fuse' in kinds, 'discard' in kinds
@@ -200,48 +251,22 @@ def compare_models(lib, mA, mB, kinds, what):
     skip |= FUSE_SKIP
   if disc:
     skip |= DISCARD_SKIP
+  # objects whose body is fused away: cameras are excluded (known finding 'fusestatic-camera-frame-lost', see the
+  # dedicated probe), geoms and sites are compared without their local-frame fields (world poses: trajectories)
+  moved = {t: set() for t in OBJTYPES}
+  tol_derived = TOL_DERIVED_FUSE if fuse else TOL_DERIVED
+  if fuse:
+    for t, bf in (('geom', 'geom_bodyid'), ('site', 'site_bodyid'), ('camera', 'cam_bodyid')):
+      for x in common[t]:
+        if IA.name('body', getattr(mA, bf)[IA.ids[t][x]]) not in IB.ids['body']:
+          moved[t].add(x)
+    if moved['camera']:
+      common['camera'] = [x for x in common['camera'] if x not in moved['camera']]
+      common['excluded_cameras'] = sorted(moved['camera'])
   for t in OBJTYPES:
-    nA, nB = getattr(mA, COUNT[t]), getattr(mB, COUNT[t])
-    ia = np.array([IA.ids[t][x] for x in common[t]], dtype=int)
-    ib = np.array([IB.ids[t][x] for x in common[t]], dtype=int)
-    if not len(ia):
-      continue
-    for f in lib.model_fields:
-      if not f.startswith(PREFIX[t]) or f in skip:
-        continue
-      xa, xb = getattr(mA, f), getattr(mB, f)
-      if xa.shape[0] != nA or xb.shape[0] != nB or xa.shape[1:] != xb.shape[1:]:
-        if xa.shape[0] != nA:
-          continue
-        fail('%s: field %s shapes %s vs %s' % (what, f, xa.shape, xb.shape), 'shape')
-      va, vb = xa[ia], xb[ib]
-      if f in IDMAP:
-        na = [IA.name(IDMAP[f], v) for v in va]
-        nb = [IB.name(IDMAP[f], v) for v in vb]
-        if na != nb:
-          k = [i for i in range(len(na)) if na[i] != nb[i]][0]
-          fail('%s: %s of %s %r: %r vs %r' % (what, f, t, common[t][k], na[k], nb[k]), 'field:' + f)
-      elif va.dtype.kind == 'f':
-        if f in QUATS:
-          e, cls, tol = quaterr(va, vb), 'direct', TOL_DIRECT
-        elif va.dtype == np.float32:
-          e, cls, tol = relerr(va, vb), 'f32', TOL_F32
-        elif f in DERIVED:
-          e, cls, tol = relerr(va, vb), 'derived', TOL_DERIVED
-        else:
-          e, cls, tol = relerr(va, vb), 'direct', TOL_DIRECT
-        STATS.note(cls, f, e)
-        if e > tol:
-          d = np.abs(va.astype(np.float64) - vb).reshape(len(ia), -1).max(axis=1) if f not in QUATS else \
-              np.minimum(np.abs(va - vb).max(axis=1), np.abs(va + vb).max(axis=1))
-          k = int(np.argmax(d))
-          fail('%s: %s of %s %r differs: %s vs %s (err %.3g > %.1g)' % (what, f, t, common[t][k], va[k].tolist(),
-                                                                          vb[k].tolist(), e, tol), 'field:' + f)
-      else:
-        if not np.array_equal(va, vb):
-          d = (va != vb).reshape(len(ia), -1).any(axis=1)
-          k = int(np.flatnonzero(d)[0])
-          fail('%s: %s of %s %r: %s vs %s' % (what, f, t, common[t][k], va[k].tolist(), vb[k].tolist()), 'field:' + f)
+    for subset, sk in (([x for x in common[t] if x not in moved[t]], skip),
+                       ([x for x in common[t] if x in moved[t]], skip | FUSE_MOVED_SKIP)):
+      compare_fields(lib, mA, mB, IA, IB, t, subset, sk, what, tol_derived)
   # geom / site sizes: only the entries that are meaningful for the type
   for t, tf, sf in (('geom', 'geom_type', 'geom_size'), ('site', 'site_type', 'site_size')):
     for x in common[t]:
@@ -274,9 +299,9 @@ def compare_models(lib, mA, mB, kinds, what):
                                           'dof_simplenum') or f in skip:
         continue
       va, vb = getattr(mA, f)[da:da + nv], getattr(mB, f)[db:db + nv]
-      cls, tol = ('derived', TOL_DERIVED) if f in DERIVED else ('direct', TOL_DIRECT)
+      cls, tol = ('derived', tol_derived) if f in DERIVED else ('direct', TOL_DIRECT)
       e = relerr(va, vb)
-      STATS.note(cls, f, e)
+      STATS.note(cls + ('-fuse' if fuse and cls == 'derived' else ''), f, e)
       if e > tol:
         fail('%s: %s of joint %r: %s vs %s (err %.3g)' % (what, f, x, va.tolist(), vb.tolist(), e), 'field:' + f)
   # tendon paths, actuator targets, sensor objects (through names)
@@ -303,9 +328,12 @@ def compare_models(lib, mA, mB, kinds, what):
   if not fuse:
     for x in common['body']:
       a, b = IA.ids['body'][x], IB.ids['body'][x]
-      e = max(relerr(mA.body_ipos[a], mB.body_ipos[b]), relerr(inertia_body(mA, a), inertia_body(mB, b)))
-      STATS.note('direct', 'body_inertia(tensor)', e)
-      if e > TOL_DIRECT:
+      e = relerr(mA.body_ipos[a], mB.body_ipos[b])
+      STATS.note('direct', 'body_ipos', e)
+      Ta, Tb = inertia_body(mA, a), inertia_body(mB, b)
+      e2 = float(np.max(np.abs(Ta - Tb)) / max(np.max(np.abs(Ta)), 1e-300)) if np.any(Ta) or np.any(Tb) else 0.0
+      STATS.note('eig', 'body_inertia(tensor)', e2)
+      if e > TOL_DIRECT or e2 > TOL_EIG:
         fail('%s: inertial properties of body %r: ipos %s vs %s, inertia %s vs %s' % (
             what, x, mA.body_ipos[a].tolist(), mB.body_ipos[b].tolist(), mA.body_inertia[a].tolist(),
             mB.body_inertia[b].tolist()), 'field:body_inertia')
@@ -318,8 +346,8 @@ def compare_models(lib, mA, mB, kinds, what):
   for k in stat:
     va, vb = np.atleast_1d(getattr(mA.stat, k)), np.atleast_1d(getattr(mB.stat, k))
     e = relerr(va, vb)
-    STATS.note('derived', 'stat.' + k, e)
-    if e > TOL_DERIVED:
+    STATS.note('derived' + ('-fuse' if fuse else ''), 'stat.' + k, e)
+    if e > tol_derived:
       fail('%s: stat.%s %s vs %s' % (what, k, va.tolist(), vb.tolist()), 'field:stat')
   return IA, IB, common
 
@@ -380,9 +408,11 @@ def fused_mass_check(lib, mA, mB, IA, IB, what):
       I += R @ np.diag(mA.body_inertia[i]) @ R.T + float(mA.body_mass[i]) * (r @ r * np.eye(3) - np.outer(r, r))
     RB = dB.ximat[b].reshape(3, 3)
     IBw = RB @ np.diag(mB.body_inertia[b]) @ RB.T
-    e = max(relerr(mass, mB.body_mass[b]), relerr(com, dB.xipos[b]), relerr(I, IBw))
-    STATS.note('fused-mass', 'group mass/com/inertia', e)
-    if e > TOL_DERIVED:
+    e = max(relerr(mass, mB.body_mass[b]), relerr(com, dB.xipos[b]))
+    e2 = float(np.max(np.abs(I - IBw)) / np.max(np.abs(I)))
+    STATS.note('fused-mass', 'group mass/com', e)
+    STATS.note('eig', 'fused inertia', e2)
+    if e > TOL_DERIVED or e2 > TOL_EIG:
       fail('%s: fused body %r: mass %r vs %r, com %s vs %s, inertia err %.3g' % (
           what, IA.names['body'][j], mass, float(mB.body_mass[b]), com.tolist(), dB.xipos[b].tolist(),
           relerr(I, IBw)), 'fuse:mass')
@@ -478,7 +508,7 @@ def rollout(lib, m, I, common, seed, eps=0.0):
   return obs, bad, d
 
 
-def compare_trajectories(ck, lib, mA, mB, IA, IB, common, seed, what):
+def compare_trajectories(ck, lib, mA, mB, IA, IB, common, seed, what, fuse=False):
   oA, badA, dA = rollout(lib, mA, IA, common, seed)
   lib.warnings()
   if badA:
@@ -490,10 +520,10 @@ def compare_trajectories(ck, lib, mA, mB, IA, IB, common, seed, what):
     ck.label('traj:illconditioned-skipped')
     return False
   oB, badB, dB = rollout(lib, mB, IB, common, seed)
-  tol = TRAJ_ATOL + TRAJ_K * resp
+  tol = (TRAJ_ATOL_FUSE + TRAJ_K_FUSE * resp) if fuse else (TRAJ_ATOL + TRAJ_K * resp)
   for k, (a, b) in zip(CMP_STEPS, zip(oA, oB)):
     e, f = obs_diff(a, b)
-    STATS.note('traj', f, e / tol)
+    STATS.note('traj-fuse(diff/tol)' if fuse else 'traj(diff/tol)', f, e / tol)
     if e > tol:
       fail('%s: trajectories differ at step %d in %s: max diff %.3g > tol %.3g (response to 1e-12 state perturbation '
            '%.3g)' % (what, k, f, e, tol, resp), 'traj:' + f)
@@ -508,6 +538,7 @@ def check_rewrite(ck, lib, case, probe=False):
     ck.discard('render:' + case['skip'])
     return
   kinds = case['kinds']
+  ck.journal(case)
   try:
     mA = compile_case(lib, case['plain'], None)
   except mj.MjError as e:
@@ -543,9 +574,11 @@ def check_rewrite(ck, lib, case, probe=False):
   if 'fuse' in kinds:
     nf = fused_mass_check(lib, mA, mB, IA, IB, what)
     labels.append('fuse:fused-bodies' if nf else 'fuse:nothing-to-fuse')
+    if common.get('excluded_cameras'):
+      labels.append('fuse:camera-in-fused-body-excluded(known-finding)')
   if 'discard' in kinds:
     labels.append('discard:geoms-removed' if mB.ngeom < mA.ngeom else 'discard:nothing-to-discard')
-  if compare_trajectories(ck, lib, mA, mB, IA, IB, common, case['seed'], what):
+  if compare_trajectories(ck, lib, mA, mB, IA, IB, common, case['seed'], what, fuse='fuse' in kinds):
     labels.append('traj:compared')
   nt = case['rw'] != case['plain']
   sample = None
